@@ -1209,4 +1209,88 @@ theorem remSpec_length_le_of_not_splits : ∀ (l : List Interval) (a : Interval)
           · simp
           · have := ih a hns2; simp; omega
 
+
+-- ---------------------------------------------------------------------------------------------
+-- IvSet-level characterisations
+
+theorem underLimit_false_iff (limit : Option Nat) (len : Nat) :
+    underLimit limit len = false ↔ ∃ L, limit = some L ∧ L ≤ len := by
+  cases limit with
+  | none => simp [underLimit]
+  | some L => simp [underLimit]
+
+theorem canPushOf_false_iff (limit : Option Nat) (len : Nat) :
+    canPushOf limit len = false ↔ ∃ L, limit = some L ∧ L ≤ len + 1 := by
+  cases limit with
+  | none => simp [canPushOf]
+  | some L => simp [canPushOf]
+
+/-- the exact `LimitExceeded` condition of `insert`: the set is non-empty, the new interval neither
+    overlaps nor is adjacent to any stored interval, and the set already holds `limit` or more intervals -/
+def InsertLimitHit (s : IvSet) (r : Interval) : Prop :=
+  s.ivs ≠ [] ∧ (∀ b ∈ s.ivs, ¬ Touches r b) ∧ ∃ L, s.limit = some L ∧ L ≤ s.ivs.length
+
+/-- the exact `LimitExceeded` condition of `remove`: `r` lies strictly inside one stored interval
+    (a split is needed) and `limit ≤ interval_len + 1` -/
+def RemoveLimitHit (s : IvSet) (r : Interval) : Prop :=
+  Splits s.ivs r ∧ ∃ L, s.limit = some L ∧ L ≤ s.ivs.length + 1
+
+theorem insertAt_char (s : IvSet) (r : Interval) (k : Nat) (hwf : WF s.ivs) (hr : r.lo ≤ r.hi) (hne : s.ivs ≠ [])
+    (hk : k ≤ s.ivs.length) (hint : ∀ b ∈ s.ivs.take k, b.hi + 1 < r.lo) :
+    ((∃ idx, insertAt s.ivs r k s.limit = .ok (insSpec s.ivs r, idx)) ∧ ¬ InsertLimitHit s r) ∨
+    (insertAt s.ivs r k s.limit = .error .limitExceeded ∧ InsertLimitHit s r) := by
+  have h := insertAt_eq_insSpec s.ivs r k s.limit hwf hr hk hint
+  unfold InsOutcome at h
+  have hlen := insSpec_length_succ_iff s.ivs r hwf hr
+  by_cases hc : (insSpec s.ivs r).length = s.ivs.length + 1 ∧ underLimit s.limit s.ivs.length = false
+  · rw [if_pos hc] at h
+    exact Or.inr ⟨h, hne, hlen.1 hc.1, (underLimit_false_iff _ _).1 hc.2⟩
+  · rw [if_neg hc] at h
+    refine Or.inl ⟨h, ?_⟩
+    rintro ⟨_, h1, h2⟩
+    exact hc ⟨hlen.2 h1, (underLimit_false_iff _ _).2 h2⟩
+
+theorem isEmpty_iff (l : List Interval) : l.isEmpty = true ↔ l = [] := by cases l <;> simp
+
+theorem insert_char (s : IvSet) (r : Interval) (hwf : WF s.ivs) (hr : r.lo ≤ r.hi) :
+    (s.insert r = .ok ⟨s.limit, insSpec s.ivs r⟩ ∧ ¬ InsertLimitHit s r) ∨
+    (s.insert r = .error .limitExceeded ∧ InsertLimitHit s r) := by
+  unfold IvSet.insert
+  by_cases he : s.ivs = []
+  · refine Or.inl ⟨by simp [he, insSpec], fun h => h.1 he⟩
+  · rw [if_neg (by rw [isEmpty_iff]; exact he)]
+    have hh := indexFor_hint s.ivs r hwf
+    rcases insertAt_char s r _ hwf hr he hh.1 hh.2 with ⟨⟨idx, h⟩, hn⟩ | ⟨h, hy⟩
+    · exact Or.inl ⟨by rw [h], hn⟩
+    · exact Or.inr ⟨by rw [h], hy⟩
+
+theorem insertFront_char (s : IvSet) (r : Interval) (hwf : WF s.ivs) (hr : r.lo ≤ r.hi) :
+    (s.insertFront r = .ok ⟨s.limit, insSpec s.ivs r⟩ ∧ ¬ InsertLimitHit s r) ∨
+    (s.insertFront r = .error .limitExceeded ∧ InsertLimitHit s r) := by
+  unfold IvSet.insertFront
+  by_cases he : s.ivs = []
+  · refine Or.inl ⟨by simp [he, insSpec], fun h => h.1 he⟩
+  · rw [if_neg (by rw [isEmpty_iff]; exact he)]
+    rcases insertAt_char s r 0 hwf hr he (by omega) (by simp) with ⟨⟨idx, h⟩, hn⟩ | ⟨h, hy⟩
+    · exact Or.inl ⟨by rw [h], hn⟩
+    · exact Or.inr ⟨by rw [h], hy⟩
+
+theorem remove_char (s : IvSet) (r : Interval) (hwf : WF s.ivs) (hr : r.lo ≤ r.hi) :
+    (s.remove r = (⟨s.limit, remSpec s.ivs r⟩, .ok ()) ∧ ¬ RemoveLimitHit s r) ∨
+    (s.remove r = (s, .error .limitExceeded) ∧ RemoveLimitHit s r) := by
+  unfold IvSet.remove
+  by_cases he : s.ivs = []
+  · refine Or.inl ⟨?_, fun h => ?_⟩
+    · cases s; simp_all [remSpec]
+    · obtain ⟨⟨b, hb, _⟩, _⟩ := h; rw [he] at hb; simp at hb
+  · rw [if_neg (by rw [isEmpty_iff]; exact he)]
+    have hh := indexFor_hint s.ivs r hwf
+    rcases removeAt_eq_remSpec s.ivs r _ s.limit hwf hr hh.1 hh.2 with ⟨hs, hcp, h⟩ | ⟨hc, idx, h⟩
+    · refine Or.inr ⟨by rw [h], hs, (canPushOf_false_iff _ _).1 hcp⟩
+    · refine Or.inl ⟨by rw [h], ?_⟩
+      rintro ⟨hs, hl⟩
+      rcases hc with hc | hc
+      · have := (canPushOf_false_iff _ _).2 hl; rw [hc] at this; cases this
+      · exact hc hs
+
 end Quic.Proofs.IvLemmas
